@@ -22,6 +22,14 @@ pub(crate) struct ContainerAttributes {
 impl syn::parse::Parse for ContainerAttributes {
     fn parse(input: syn::parse::ParseStream) -> syn::Result<Self> {
         let mut this = ContainerAttributes::default();
+        this.parse_more(input)?;
+        Ok(this)
+    }
+}
+impl ContainerAttributes {
+    /// reads one `#[serde(...)]` list on top of what earlier ones gave: serde reads all of them
+    pub(crate) fn parse_more(&mut self, input: syn::parse::ParseStream) -> syn::Result<()> {
+        let this = self;
 
         while let Ok(i) = input.parse::<Ident>() {
             match &*i.to_string() {
@@ -44,7 +52,7 @@ impl syn::parse::Parse for ContainerAttributes {
             }
         }
 
-        Ok(this)
+        Ok(())
     }
 }
 
@@ -62,6 +70,14 @@ pub(crate) struct FieldAttributes {
 impl syn::parse::Parse for FieldAttributes {
     fn parse(input: syn::parse::ParseStream) -> syn::Result<Self> {
         let mut this = FieldAttributes::default();
+        this.parse_more(input)?;
+        Ok(this)
+    }
+}
+impl FieldAttributes {
+    /// reads one `#[serde(...)]` list on top of what earlier ones gave: serde reads all of them
+    pub(crate) fn parse_more(&mut self, input: syn::parse::ParseStream) -> syn::Result<()> {
+        let this = self;
 
         while let Ok(i) = input.parse::<Ident>() {
             match &*i.to_string() {
@@ -81,7 +97,7 @@ impl syn::parse::Parse for FieldAttributes {
             }
         }
 
-        Ok(this)
+        Ok(())
     }
 }
 
@@ -100,6 +116,14 @@ pub(crate) struct VariantAttributes {
 impl syn::parse::Parse for VariantAttributes {
     fn parse(input: syn::parse::ParseStream) -> syn::Result<Self> {
         let mut this = VariantAttributes::default();
+        this.parse_more(input)?;
+        Ok(this)
+    }
+}
+impl VariantAttributes {
+    /// reads one `#[serde(...)]` list on top of what earlier ones gave: serde reads all of them
+    pub(crate) fn parse_more(&mut self, input: syn::parse::ParseStream) -> syn::Result<()> {
+        let this = self;
 
         while let Ok(i) = input.parse::<Ident>() {
             match &*i.to_string() {
@@ -120,7 +144,7 @@ impl syn::parse::Parse for VariantAttributes {
             }
         }
 
-        Ok(this)
+        Ok(())
     }
 }
 
